@@ -71,6 +71,17 @@ def gen(ctx):
             yield dict(kind="ev1", hist=hist, dtype="int32", scale=1, r=1, rule=rng.choice(["nks:30", "nks:110", "hash:3:2:1:0"]),
                        memo=rng.choice(["False", "True", "recursive_lit"]), pred="steps:%d" % K, fuel=K + 5)
             yield dict(kind="ev1", hist=hist, dtype="int32", scale=1, r=1, rule="nks:30", memo="False", pred="lenle:%d" % K, fuel=K + 5)
+    # a resting state that a time-dependent (or stateful) rule later perturbs, under a predicate that keeps going:
+    # every granted step must consult the rule, whether or not the state has stopped changing
+    for _ in range(ctx.n(40, 400)):
+        N = rng.randint(2, 8)
+        k = rng.randint(2, 4)
+        K = rng.randint(4, 12)
+        H = rng.randint(1, 3)
+        row = [rng.randrange(k) for _ in range(N)]
+        yield dict(kind="ev1", hist=[list(row) for _ in range(H)], dtype=rng.choice(["int32", "int64", "float64"]), scale=1, r=rng.choice([1, 1, 2]),
+                   rule="pulse:%d:%d:0" % (k, rng.randint(2, K)), memo=rng.choice(["False", "False", "True", "recursive_lit"]),
+                   pred=rng.choice(["steps:%d" % K, "lenle:%d" % (K + H - 1)]), fuel=K + 5)
     # states of large magnitude that keep moving by a few units per step: "unchanged" must mean equal, not close
     for _ in range(ctx.n(60, 600)):
         N = rng.randint(2, 9)
@@ -111,7 +122,7 @@ def line(c):
 def run_capped(c):
     import cellpylib as cpl
     ca = ev1.make_ca(c)
-    rule = Rule(c["rule"], c.get("scale", 1))
+    rule = Rule(c["rule"], c.get("scale", 1), clobber=bool(c.get("clobber")))
     pred = CappedPred(c["pred"], c.get("scale", 1))
     pred.fuel = c.get("fuel", FUEL)
     try:
